@@ -306,6 +306,14 @@ func (n *AbsfsNFS) UpdatePolicyOptions(newPolicy PolicyOptions) error {
 	return nil
 }
 
+// currentRateLimiter returns the rate limiter installed by the latest policy
+// update (nil when rate limiting is off). It waits for a running update.
+func (n *AbsfsNFS) currentRateLimiter() *RateLimiter {
+	n.policyRWMu.RLock()
+	defer n.policyRWMu.RUnlock()
+	return n.rateLimiter
+}
+
 // getStructuredLogger returns the current structured logger safely.
 // The returned Logger is safe to use after the call returns.
 func (n *AbsfsNFS) getStructuredLogger() Logger {
